@@ -42,9 +42,10 @@ func (m *md5Hash) OnPack(src []byte) ([]byte, error) {
 	if err != nil {
 		return nil, err
 	}
-	src = append(src, content...)
-
-	return src, nil
+	// the result is a new slice: append(src, ...) writes the digest into the caller's
+	// backing array whenever src has spare capacity (src may be a user's body slice)
+	dst := make([]byte, 0, len(src)+len(content))
+	return append(append(dst, src...), content...), nil
 }
 
 func (m *md5Hash) OnUnpack(src []byte) ([]byte, error) {
